@@ -654,7 +654,8 @@ func verifLemmaSourceConnected(o *IPFSLog, A iface.IPFSLogOrderedEntries) {
 //@ @load modifies lastFetch, lastFetchRoots, lastFetchLimit
 //@ @load ensures [unbounded-manifest-load-fetches-without-limit] err == nil && noLimit(options.Length) ==> lastFetchLimit < 0
 //@ @load ensures [unbounded-manifest-load-returns-the-whole-fetch-result] err == nil && noLimit(options.Length) ==> result0.Values == lastFetch
-//@ @load ensures [manifest-load-fetches-from-the-published-heads-and-reports-those-it-got] err == nil ==> forall i int :: 0 <= i && i < len(result0.Heads) ==> (exists r int :: 0 <= r && r < len(fetchRoots()) && fetchRoots()[r] == result0.Heads[i]) && (exists v int :: 0 <= v && v < len(result0.Values) && result0.Values[v].Hash == result0.Heads[i])
+//@ @load ensures [reported-heads-are-published-heads] err == nil ==> forall i int :: 0 <= i && i < len(result0.Heads) ==> exists r int :: 0 <= r && r < len(fetchRoots()) && fetchRoots()[r] == result0.Heads[i]
+//@ @load ensures [reported-heads-were-fetched] err == nil ==> forall i int :: 0 <= i && i < len(result0.Heads) ==> exists v int :: 0 <= v && v < len(result0.Values) && result0.Values[v].Hash == result0.Heads[i]
 //@ @load ensures [every-fetched-published-head-is-reported] err == nil ==> forall r int, v int :: 0 <= r && r < len(fetchRoots()) && 0 <= v && v < len(result0.Values) && str(fetchRoots()[r]) == ehash(result0.Values[v]) ==> exists i int :: 0 <= i && i < len(result0.Heads) && result0.Heads[i] == result0.Values[v].Hash
 //@   ensures [manifest-load-respects-the-limit] err == nil && options.Length != nil && deref(options.Length) >= 0 ==> len(result0.Values) <= deref(options.Length)
 //@   ensures err == nil ==> result0 != nil && validSlice(result0.Values)
@@ -686,6 +687,14 @@ func verifLemmaSourceConnected(o *IPFSLog, A iface.IPFSLogOrderedEntries) {
 //@ func fromEntry
 //@   requires validSlice(sourceEntries) && (options == nil || (validSlice(options.Exclude) && (options.IO == nil || validAnyIO(options.IO))))
 //@   ensures services == nil || options == nil ==> err != nil
+//@ @load modifies lastFetch, lastFetchRoots, lastFetchLimit
+//@ @load ensures [unbounded-entry-load-fetches-without-limit-from-the-supplied-entries] err == nil ==> len(fetchRoots()) == len(sourceEntries) && (forall i int :: 0 <= i && i < len(sourceEntries) ==> fetchRoots()[i] == sourceEntries[i].Hash) && (noLimit(options.Length) ==> lastFetchLimit < 0)
+//@ @load ensures [unbounded-entry-load-keeps-every-fetched-entry] err == nil && noLimit(options.Length) ==> forall i int :: 0 <= i && i < len(fetched()) ==> exists j int :: 0 <= j && j < len(result0.Values) && ehash(result0.Values[j]) == ehash(fetched()[i])
+//@ @load assert "combined := append(sourceEntries, entries...)" [fetched-entries-follow-the-supplied-ones] forall i int :: {entries[i]} 0 <= i && i < len(entries) ==> combined[len(sourceEntries) + i] == entries[i]
+//@ @load assert "combined = append(combined, options.Exclude...)" [fetched-entries-are-in-the-combined-list] forall i int :: 0 <= i && i < len(entries) ==> exists p int :: 0 <= p && p < len(combined) && combined[p] == entries[i]
+//@ @load assert "result := entry.NewOrderedMapFromEntries(sourceEntries).Slice()" [fetched-entries-are-in-the-unique-list] forall i int :: 0 <= i && i < len(fetched()) ==> exists p int :: 0 <= p && p < len(uniques) && ehash(uniques[p]) == ehash(fetched()[i])
+//@ @load assert "result = append(result, others...)" [the-other-entries-follow-the-supplied-ones] forall i int :: {others[i]} 0 <= i && i < len(others) ==> result[len(result) - len(others) + i] == others[i]
+//@ @load assert "result = append(result, others...)" [fetched-entries-survive-the-append] noLimit(options.Length) ==> forall i int :: 0 <= i && i < len(fetched()) ==> exists p int :: 0 <= p && p < len(result) && ehash(result[p]) == ehash(fetched()[i])
 //@   ensures [entry-load-respects-the-limit] err == nil && options.Length != nil && deref(options.Length) >= 0 ==> len(result0.Values) <= max(deref(options.Length), len(sourceEntries))
 //@   ensures [entry-load-keeps-every-supplied-entry] err == nil ==> forall i int :: 0 <= i && i < len(sourceEntries) ==> exists j int :: 0 <= j && j < len(result0.Values) && ehash(result0.Values[j]) == ehash(sourceEntries[i])
 //@   ensures err == nil ==> result0 != nil && validSlice(result0.Values)
@@ -694,6 +703,7 @@ func verifLemmaSourceConnected(o *IPFSLog, A iface.IPFSLogOrderedEntries) {
 //@   assert "result = append(result, others...)" [supplied-entries-survive-the-append] forall i int :: 0 <= i && i < len(sourceEntries) ==> exists p int :: 0 <= p && p < len(result) && ehash(result[p]) == ehash(sourceEntries[i])
 //@   loop 0
 //@     invariant len(hashes) == $k && (hashes == nil || fresh(hashes))
+//@ @load invariant off(hashes) == 0 && (forall q int :: 0 <= q && q < $k ==> hashes[q] == sourceEntries[q].Hash)
 
 // ---- C09 (facet load): what the loaders build from a fetch result ----
 // sameKeysAsSlice(m, s): the entry index holds exactly the hashes of the entries in s
@@ -721,6 +731,7 @@ func verifLemmaSourceConnected(o *IPFSLog, A iface.IPFSLogOrderedEntries) {
 //@ @load modifies lastFetch, lastFetchRoots, lastFetchLimit
 //@   ensures services == nil || identity == nil || logOptions == nil || fetchOptions == nil ==> err != nil
 //@   ensures err == nil ==> result0 != nil && fresh(result0) && logInv(result0)
+//@ @load assert "heads = append(heads, head)" [appended-head-is-the-published-one] ehash(head) == str(h) && heads[len(heads) - 1] == head
 //@ @load ensures [manifest-rebuild-fetches-without-limit] err == nil && noLimit(fetchOptions.Length) ==> lastFetchLimit < 0
 //@ @load ensures [manifest-rebuild-holds-exactly-the-fetched-entries] err == nil && noLimit(fetchOptions.Length) ==> holdsExactly(result0.Entries, fetched())
 //@ @load ensures [manifest-rebuild-heads-are-entries] err == nil ==> forall k string :: has(hds(result0), k) ==> has(ent(result0), k)
@@ -729,9 +740,12 @@ func verifLemmaSourceConnected(o *IPFSLog, A iface.IPFSLogOrderedEntries) {
 //@     invariant heads == nil || fresh(heads)
 //@     invariant off(heads) == 0 && isOM(entries) && data != nil && validSlice(data.Values) && validSlice(heads) && logOptions.IO != nil && validAnyIO(logOptions.IO)
 //@ @load invariant holdsExactly(entries, data.Values) && (noLimit(fetchOptions.Length) ==> data.Values == lastFetch && lastFetchLimit < 0)
-//@ @load invariant [published-heads-are-the-fetch-roots-that-were-fetched] (forall i int :: 0 <= i && i < len(data.Heads) ==> (exists r int :: 0 <= r && r < len(fetchRoots()) && fetchRoots()[r] == data.Heads[i]) && (exists v int :: 0 <= v && v < len(data.Values) && data.Values[v].Hash == data.Heads[i])) && (forall r int, v int :: 0 <= r && r < len(fetchRoots()) && 0 <= v && v < len(data.Values) && str(fetchRoots()[r]) == ehash(data.Values[v]) ==> exists i int :: 0 <= i && i < len(data.Heads) && data.Heads[i] == data.Values[v].Hash)
+//@ @load invariant [entry-index-is-keyed-by-hash] forall k string :: has(omv(entries), k) ==> validEntry(omv(entries)[k]) && ehash(omv(entries)[k]) == k
+//@ @load invariant [snapshot-heads-are-published-heads] forall i int :: 0 <= i && i < len(data.Heads) ==> exists r int :: 0 <= r && r < len(fetchRoots()) && fetchRoots()[r] == data.Heads[i]
+//@ @load invariant [fetched-published-heads-are-snapshot-heads] forall r int, v int :: 0 <= r && r < len(fetchRoots()) && 0 <= v && v < len(data.Values) && str(fetchRoots()[r]) == ehash(data.Values[v]) ==> exists i int :: 0 <= i && i < len(data.Heads) && data.Heads[i] == data.Values[v].Hash
+//@     loopfresh
 //@     invariant forall j int :: 0 <= j && j < len(heads) ==> heads[j] != nil && validEntry(heads[j]) && has(omv(entries), ehash(heads[j])) && omv(entries)[ehash(heads[j])] == heads[j]
-//@ @load invariant [collected-heads-are-published] forall j int :: 0 <= j && j < len(heads) ==> exists i int :: 0 <= i && i < $k && str($r[i]) == ehash(heads[j])
+//@ @load invariant [collected-heads-are-published] forall j int :: 0 <= j && j < len(heads) ==> exists i int :: 0 <= i && i < len(data.Heads) && str(data.Heads[i]) == ehash(heads[j])
 //@ @load invariant [published-heads-seen-so-far-are-collected] forall i int :: 0 <= i && i < $k && has(omv(entries), str($r[i])) ==> exists j int :: 0 <= j && j < len(heads) && ehash(heads[j]) == str($r[i])
 
 //@ func NewFromEntryHash
@@ -745,6 +759,19 @@ func verifLemmaSourceConnected(o *IPFSLog, A iface.IPFSLogOrderedEntries) {
 //@ @load ensures [entry-hash-rebuild-holds-exactly-the-fetched-entries] err == nil && noLimit(fetchOptions.Length) ==> holdsExactly(result0.Entries, fetched())
 //@ @load ensures [entry-hash-rebuild-keeps-the-requested-id] err == nil && old(logOptions.ID) != "" ==> result0.ID == old(logOptions.ID)
 //@ @load ensures [entry-hash-rebuild-heads-are-the-unreferenced-entries] err == nil ==> unreferencedAreHeads(result0)
+
+//@ func NewFromEntry
+//@   requires validIdentity(identity) && validSlice(sourceEntries)
+//@   requires logOptions == nil || ((logOptions.IO == nil || validAnyIO(logOptions.IO)) && (logOptions.Clock == nil || validClock(logOptions.Clock)))
+//@   requires fetchOptions == nil || validSlice(fetchOptions.Exclude)
+//@   modifies fields(logOptions)
+//@ @load modifies lastFetch, lastFetchRoots, lastFetchLimit
+//@   ensures logOptions == nil || fetchOptions == nil ==> err != nil
+//@   ensures err == nil ==> result0 != nil && fresh(result0) && logInv(result0)
+//@ @load ensures [entry-rebuild-fetches-without-limit-from-the-supplied-entries] err == nil ==> len(fetchRoots()) == len(sourceEntries) && (noLimit(fetchOptions.Length) ==> lastFetchLimit < 0)
+//@ @load ensures [entry-rebuild-holds-every-fetched-entry] err == nil && noLimit(fetchOptions.Length) ==> forall i int :: 0 <= i && i < len(fetched()) ==> has(ent(result0), ehash(fetched()[i]))
+//@ @load ensures [entry-rebuild-holds-every-supplied-entry] err == nil ==> forall i int :: 0 <= i && i < len(sourceEntries) ==> has(ent(result0), ehash(sourceEntries[i]))
+//@ @load ensures [entry-rebuild-heads-are-the-unreferenced-entries] err == nil ==> unreferencedAreHeads(result0)
 
 // ---- C01: convergence (facet wf) ----
 // Join's contract says: the entries after an unbounded merge are the UNION of both entry sets, and the heads are exactly
